@@ -12,7 +12,7 @@ from __future__ import annotations
 from ..facts import AnalysisError
 from ..terms import const, show, strip_sites
 from ..util import InlineOnly, NoInline, P, calls_to, engine, loc, param_at
-from .ordering import (arming, cancel_on_removal, PROTO, TS, Ctx, atomic_notifications, expiry_once, reboot_before_entries, reject_before_record)
+from .ordering import (arming, cancel_on_removal, every_removal_reported, PROTO, TS, Ctx, atomic_notifications, expiry_once, reboot_before_entries, reject_before_record)
 
 INST = "sd.ServiceInstance"
 ANN = "sd.ServiceAnnouncer"
@@ -35,6 +35,7 @@ def check(run, prog, tier):
     # a stale TTL timer would report a live entry gone: cancel-on-replace and arming are part of truthfulness
     cancel_on_removal(cx, "T1")
     arming(cx, "T2")
+    every_removal_reported(cx, "A1", owners={"subscriptions"})
     reject_before_record(cx, "N1")
 
     # ---- N1: the rejection reaches handle_subscribe, which records nothing and nacks
@@ -79,7 +80,7 @@ def check(run, prog, tier):
         n += 1
         run.ob("H1", f"{fi.qual}:removes-subscriptions", fi.qual in allowed, loc(fi, e.node),
                f"{fi.qual} removes subscriptions ({allowed.get(fi.qual, 'not a legitimate cause: a held subscription would be dropped')})")
-    run.floor("H1", n, 3)
+    run.floor("H1", n, 2)
     # each legitimate remover is itself reached only from its cause
     expect = {f"{INST}.eventgroup_subscribe_stopped": {f"{INST}.handle_subscribe"},
               f"{INST}.reboot_detected": {f"{ANN}.reboot_detected"},
